@@ -114,6 +114,23 @@ fn scenarios(dm: &str) -> Vec<Scenario> {
     ] {
         v.push(sc("aliased-send-arguments", n, c, Expect::NoCrash));
     }
+    // malformed expression texts (what C11 explores in bulk at the expression engine's boundary, here inside a running
+    // session): as a value expression and as a transition guard; whatever the data model makes of them, the session
+    // must survive and stay responsive
+    for (k, text) in [
+        "v[]", "v[", "v[0][]", "v[(0, 1)]", "v.", ".v", "v..w", "v[1", "abs(", "abs(,)", "abs(1,,2)", "[1,", "[,]", "{", "{'a':}", "{'a' 1}", "1 , 2", "(1, 2)", "a \\ b",
+        "(", ")", "()", "''''", "'\\u12'", "1e", "1e+", "0x", "..", "?=", "= 1", "v =", "v ?=", "!", "-", "%", "1 % 0", "v[v[v]]", "\u{feff}v", "v;;v", "v ; ; 1",
+    ]
+    .iter()
+    .enumerate()
+    {
+        let esc = text.replace('&', "&amp;").replace('<', "&lt;").replace('"', "&quot;");
+        v.push(sc("malformed-expression", &format!("log-{}", k), &format!(r##"<log expr="{}"/>"##, esc), Expect::NoCrash));
+        let mut g = sc("malformed-expression", &format!("guard-{}", k), "", Expect::NoCrash);
+        g.state_extra = format!(r##"<transition event="go2" cond="{}"><script>mark('guarded')</script></transition>"##, esc);
+        g.events = vec!["go2".into()];
+        v.push(g);
+    }
     v.push(sc("cancel-unknown", "literal", r##"<cancel sendid="never-sent"/>"##, Expect::NoCrash));
     v.push(sc("cancel-unknown", "expr-error", r##"<cancel sendidexpr="nosuch_variable"/>"##, Expect::NoCrash));
     // transitions with odd guards: evaluated during selection
